@@ -677,6 +677,19 @@ def run_case(case, refs=None):
                 break
             nsolves += 1
             log.add('op', ci, oi, o.get('kind'), o.get('bits'), o.get('type'), o.get('steps'))
+            if o.get('kind') == 'ok':
+                bump('probe.status.%s' % str(o['res'].get('status')).replace(' ', '_'))
+                if o['res'].get('iterations') is not None and o['res']['iterations'] == (plan[ci][oi]['eff'].get('maxiters', 100)
+                                                                                       if isinstance(plan[ci][oi]['eff'].get('maxiters', 100), int) else -1):
+                    bump('probe.stopped_by_maxiters')
+            elif o.get('kind') == 'exc':
+                bump('probe.raised.%s' % o.get('type'))
+            if 'model' in inst:
+                bump('probe.solve_of_multi_constraint_model')
+                if len(set(inst['cons'])) < len(inst['cons']):
+                    bump('probe.model_with_a_constraint_object_present_twice')
+            if any(x[0] == 'noise' for x in ops[:oi]):
+                bump('probe.solve_preceded_by_modelling_noise_in_its_own_client')
             if o['kind'] == 'cap':
                 violation = V('termination', entry, '%s did not return within the global step cap (%d yield points in this call)' % (where, o['steps']))
                 break
